@@ -27,6 +27,11 @@ OutsQ == {TxOut(V1, <<>>), TxOut(V2, <<0>>)}
 OutsT == OutsQ \cup {TxOut(V2, <<81, 0>>)}
 OutsR == {TxOut(V2, Rep(0, 253))}
 
+(* The toy hash bodies of Native.tla recurse once per byte, which TLC cannot do on buffers of  *)
+(* 10^5 bytes; the real-size config substitutes this constant-depth stand-in (cfg: Sha256 <-). *)
+SampleHash(msg) == [i \in 1..32 |-> IF msg = <<>> THEN i
+                                   ELSE (msg[1 + ((i * 7919) % Len(msg))] + msg[Len(msg) - (i % Len(msg))] + Len(msg) + i) % 256]
+
 TxidA == [i \in 1..32 |-> IF i < 3 THEN 0 ELSE IF i < 5 THEN 1 ELSE i]
 Ins   == {TxIn(TxidA, <<1, 0, 0, 0>>, s, q) : s \in Scripts, q \in Seqs}
 RECURSIVE SeqsOver(_, _)
